@@ -4,7 +4,7 @@
    showing that the hypotheses are met by non-trivial values. *)
 From Pybtex Require Import Base.Prelude Base.PyChar Base.PyStr
   Model.Plugins Model.IO Model.EntryPoints Model.YamlWriter
-  Proofs.Plugins Proofs.IO Proofs.EntryPoints Proofs.YamlWriter Proofs.Utf8.
+  Proofs.Plugins Proofs.IO Proofs.EntryPoints Proofs.YamlWriter Proofs.Utf8 Proofs.Utf16.
 
 (* ===== the plug-in registry (pybtex/plugin/__init__.py), for every state of
    _RUNTIME_PLUGINS, every table of installed entry points and every _DEFAULT_PLUGINS ===== *)
@@ -71,6 +71,25 @@ Theorem find_by_name_stable : forall inst df cs r g c n k d fl,
   find_plugin (snd (run inst df r cs)) inst df g (NStr (c :: n)) fl = Ok k.
 Proof. exact Proofs.Plugins.find_by_name_stable. Qed.
 Print Assumptions find_by_name_stable.
+
+Theorem find_by_suffix_stable : forall inst df cs r g fl k d,
+  dget df g = Some d -> fl <> [] ->
+  lookup1 r inst (g ++ s_suffixes) (snd (splitext fl)) = Some k ->
+  Forall (fun x => ~ forces (g ++ s_suffixes) (snd (splitext fl)) x) cs ->
+  find_plugin r inst df g NNone (Some fl) = Ok k /\
+  find_plugin (snd (run inst df r cs)) inst df g NNone (Some fl) = Ok k.
+Proof. exact Proofs.Plugins.find_by_suffix_stable. Qed.
+Print Assumptions find_by_suffix_stable.
+
+(* register_then_find for all later histories: once registered, a name stays found -- as the
+   registered class -- until a replacement of exactly that name is forced *)
+Theorem registered_stays_found : forall inst df cs r g c n k force r' d fl,
+  register_plugin r inst df g (c :: n) k force = (Ok true, r') ->
+  dget df g = Some d -> k_is_none k = false ->
+  Forall (fun x => ~ forces g (c :: n) x) cs ->
+  find_plugin (snd (run inst df r' cs)) inst df g (NStr (c :: n)) fl = Ok k.
+Proof. exact Proofs.Plugins.registered_stays_found. Qed.
+Print Assumptions registered_stays_found.
 
 (* run-time plug-ins are found exactly like installed ones: after any history of calls from
    the empty registry, every query (name, alias, suffix, default, any group) is answered as
@@ -166,6 +185,22 @@ Theorem utf8_entry_points_agree : forall db ps u s b data,
     = parse_string db ps codec_utf8 u (if u then universal_newlines s else s) data.
 Proof. exact Proofs.Utf8.utf8_entry_points_agree. Qed.
 Print Assumptions utf8_entry_points_agree.
+
+(* the same for 'utf-16' (byte-order mark and surrogate pairs included) and hence for all four
+   codecs the extracted runner knows (codec_of: utf-8, latin-1, utf-16, ascii) *)
+Theorem utf16_roundtrip : forall s b,
+  enc codec_utf16 s = Some b -> dec codec_utf16 b = Some s /\ fdec codec_utf16 b = FText s.
+Proof. exact Proofs.Utf16.utf16_roundtrip. Qed.
+Print Assumptions utf16_roundtrip.
+
+Theorem modelled_entry_points_agree : forall n db ps u s b data,
+  enc (codec_of n) s = Some b ->
+  parse_bytes db ps (codec_of n) u b data = parse_string db ps (codec_of n) u s data /\
+  parse_file db ps (codec_of n) u (FStream (own_stream u s b)) data = parse_string db ps (codec_of n) u s data /\
+  parse_file db ps (codec_of n) u (FOpened b) data
+    = parse_string db ps (codec_of n) u (if u then universal_newlines s else s) data.
+Proof. exact Proofs.Utf16.modelled_entry_points_agree. Qed.
+Print Assumptions modelled_entry_points_agree.
 
 (* to_bytes is the to_string document encoded *)
 Theorem to_bytes_is_encoded_to_string : forall wd ws cd u d t,
